@@ -21,6 +21,11 @@ TRUSTED = ["CPython `re`, `str.split/join` on the patterns used by execute_envPr
 ASSUMPTIONS = ["delimiters are non-empty literal strings",
                "the oracle's notion of 'element' is: pieces of the value split at the literal delimiter, empties dropped"]
 
+MIRRORS = [("python/eups/table.py", "Action.execute_envPrepend"), ("python/eups/table.py", "Action.execute_envSet"),
+           ("python/eups/table.py", "Action.execute_envUnset"), ("python/eups/table.py", "Action.expandEnvironmentalVariable"),
+           ("python/eups/table.py", "Action.pathUnique"), ("python/eups/Eups.py", "Eups.setEnv"),
+           ("python/eups/Eups.py", "Eups.unsetEnv")]
+
 DELIMS = [":", ":", ":", ":", ";", ",", " ", "|", "-", "::", ".", "+", "*", "?"]
 ATOMS = ["a", "b", "/x/y", "q", "c d", "/opt/p/1.0/bin", "zz"]
 VARS = ["V", "W"]
